@@ -18,7 +18,7 @@ RULE = ("worlds as C07 but estimator and uninterrupted charging off, unequal vol
         "inconclusive; non-trivial = call with >=2 constraints binding and >=3 active sessions; distinct = history signature")
 PROBES = ["greedy_call_checked", "rr_call_checked", "uncontrolled_call_checked", "tie_inconclusive", "guard_inconclusive",
           "bisection_used", "ub_granted", "finite_level_lowered", "two_constraints_binding", "eps_probe", "order_matters",
-          "rr_blocked_session", "call_after_reconfig", "uninterrupted_call", "min_pilot_refused", "direct_schedule_call_shared_bounds", "near_tie_world"]
+          "rr_blocked_session", "call_after_reconfig", "uninterrupted_call", "min_pilot_refused", "direct_schedule_call_shared_bounds", "near_tie_world", "estimator_call"]
 FAULT_DIMENSION = ("environment fault only: the operator changes a constraint limit between two periods of the run "
                    "(ChargingNetwork.update_constraint); otherwise reached-state distribution")
 ASSUMPTIONS = ["priority keys pairwise distinct (else the call is inconclusive)",
@@ -27,7 +27,7 @@ ASSUMPTIONS = ["priority keys pairwise distinct (else the call is inconclusive)"
                "feasibility decided with the algorithms' hard-wired tolerances 1e-5 / 1e-7; guard band 1e-9*max(1,limit)",
                "bisection tolerance of the greedy algorithm is its hard-wired 0.01 A; other tolerances via max_feasible_rate(eps=...) probes"]
 PROFILE = world.profile(reconfig=0.3, constraints={"three": 6, "single": 1}, binding=(0.15, 0.8), evse_kinds={"cont": 3, "finite": 3},
-                        party={"greedy": 4, "rr": 2, "uncontrolled": 1}, estimator={"none": 1}, uninterrupted=0.35,
+                        party={"greedy": 4, "rr": 2, "uncontrolled": 1}, estimator={"none": 3, "stub": 1}, uninterrupted=0.35,
                         hot=0.1, b2b=0.2, stations=(3, 8), demand=(0.05, 1.6), heterovolt=0.9, rr_inc=[0.5, 1, 3],
                         horizon=(4, 20), noise=0.1, chain_fill=(0.5, 1.0), sorted_max_recompute=[1, 1, 1, 1, 2, 3, None])
 EPS = [1e-7, 1e-6, 1e-4, 1e-3, 0.01, 0.1, 1]
@@ -37,6 +37,8 @@ def gen(rs, tier):
     sc = world.gen_world(rs, PROFILE)
     sc["network"]["violation_tolerance"] = 1e-5
     sc["network"]["relative_tolerance"] = 1e-7
+    if sc["party"].get("estimator") == "stub" and (sc["party"]["kind"] != "greedy" or sc["party"].get("uninterrupted")):
+        sc["party"]["estimator"] = "none"      # (rate estimates are modelled for the greedy algorithm without minimum pilots only)
     r = world.sub(rs, "near_tie")
     if sc["party"].get("sort") in ("llf", "lrpt") and r.random() < 0.3:
         # two sessions whose laxity / processing-time keys differ by a few 1e-4 periods when they first compete: distinct keys,
@@ -81,7 +83,7 @@ def greedy_expect(out, sc, t, order, vec, cons, phases, tag, lbs=None):
     for x in order:
         i = x["i"]
         lb, refused = lbs.get(i, (0.0, False))
-        ub = 0.0 if refused else min(max(x["max_pilot"], lb), x["rem_ap"])
+        ub = 0.0 if refused else min(max(x.get("ub_cap", x["max_pilot"]), lb), x["rem_ap"])
         got = vec[i]
         e = x["evse"]
         if e["type"] == "EVSE":
@@ -147,6 +149,11 @@ def check(sc):
     state = {"n": 0}
 
     def setup(ctx, party):
+        if p.get("estimator") == "stub":
+            def est_hook(party_, iface, rec, sched):
+                est = getattr(party_.inner, "max_rate_estimator", None)
+                rec["est_bounds"] = dict(getattr(est, "bounds", {}) or {})
+            ctx.post_hooks.append(est_hook)
         if kind in ("greedy", "rr"):
             def direct(party_, iface, rec, sched):
                 # the algorithm called directly (public schedule()) on sessions the caller built itself: generous bounds given
@@ -278,6 +285,13 @@ def check(sc):
                 continue
             out.probe("uninterrupted_call")
         if kind == "greedy":
+            if p.get("estimator") == "stub":
+                # an upper-bound estimate caps what a session may be given; it does not enter the priority keys (laxity and
+                # processing time are defined with the EVSE's maximum pilot)
+                out.probe("estimator_call")
+                eb_ = c.get("est_bounds", {})
+                for x in order:
+                    x["ub_cap"] = min(x["max_pilot"], eb_.get(x["session_id"], float("inf")))
             if greedy_expect(out, sc, t, order, vec, cons, phases, tag, lbs):
                 out.probe("greedy_call_checked")
                 if len(order) >= 2 and [x["arrival"] for x in order] != sorted(x["arrival"] for x in order):
